@@ -106,7 +106,9 @@ ASSUMPTIONS = [
     "If-conditions are pure functions of a request header",
     "readings the properties leave open (empty segments, partial regex matches, q=0, type wildcards, empty tail) "
     "are accepted either way: Must/May in Templates.tla and Mime.tla",
-    "ServeHTTP observations that are net/http ServeMux redirects (301) are not judged",
+    "a ServeHTTP observation that is a net/http ServeMux redirect (301) is not judged when Registry's ServeMux model of the documented "
+    "pattern scheme (fixed part of each root path, p and p/, nothing after a service on /, in the logged Add order) predicts it, or the "
+    "path is not clean; any other redirect is a mismatch (C02.redirect, C03.order)",
     "TLC, the Json community module, Go's net/http request parser are trusted",
 ]
 
